@@ -53,6 +53,9 @@ var c05Taints = []taint{
 	{name: "onclick", key: "onclick", val: "alert(1)"},
 	{name: "onerror", key: "onerror", val: "x()"},
 	{name: "ONLOAD", key: "ONLOAD", val: "x()", raw: true},
+	{name: "ID-upper", key: "ID", val: "ident2", raw: true},
+	{name: "Class-mixed", key: "Class", val: "cls2", raw: true},
+	{name: "STYLE-upper", key: "STYLE", val: "color:blue", raw: true},
 	{name: "id", key: "id", val: "ident1"},
 	{name: "class", key: "class", val: "cls1"},
 	{name: "style", key: "style", val: "color:red"},
@@ -67,14 +70,13 @@ var c05Taints = []taint{
 	{name: "style-displayed", tag: "style", val: "display:inline"},
 	// thorough only
 	{name: "onmouseover", key: "onmouseover", val: "x()"},
-	{name: "ID-upper", key: "ID", val: "ident2", raw: true},
 	{name: "data-type", key: "data-type", val: "youtube"},
 	{name: "unknown", key: "foo", val: "bar"},
 	{name: "xmlns", key: "xmlns:og", val: "http://ogp.me/ns#"},
 	{name: "on", key: "on", val: "x"},
 }
 
-const c05QuickTaints = 15
+const c05QuickTaints = 18
 
 var c05Skel = c05Skeleton()
 
@@ -136,7 +138,7 @@ func c05Enumerate(tier string, emit func(*eng.Case)) {
 		}
 		for i := range ops {
 			for j := i + 1; j < len(ops); j++ {
-				if tier != "thorough" && (ops[i].t >= 10 || ops[j].t >= 10) && !(ops[i].t == 10 && ops[j].t < 8 || ops[j].t == 10 && ops[i].t < 8) {
+				if tier != "thorough" && (ops[i].t >= 13 || ops[j].t >= 13) && !(ops[i].t == 13 && ops[j].t < 11 || ops[j].t == 13 && ops[i].t < 11) {
 					continue // quick: the displayed script/style children as singles only
 				}
 				if ops[i].el == ops[j].el && c05Taints[ops[i].t].key != "" && c05Taints[ops[i].t].key == c05Taints[ops[j].t].key {
@@ -309,7 +311,7 @@ func init() {
 		ID:        "C05",
 		DesignRef: "§5 C05",
 		Rule: "host document with every element kind that has its own rendering path (text blocks with inline markup, list, img, picture, two figures, video with source/track, data table with image, layout table with font, YouTube and Vimeo iframes, twitter blockquote, blockquote, pre, heading), all retained; " +
-			"every element node of its body x every taint {onclick, onerror, raw upper-case ONLOAD, id, class, style, data-x, srcdoc, child <script>, child <style>, a child <noscript> whose raw text is markup with handlers and scripts, svg>xmp and math>style children whose text is markup, the same script/style children carrying an inline display style} (quick; singles also under a non-absolute page URL) + {onmouseover, raw ID, data-type, unknown, xmlns:og, on} and a page URL (thorough); all singles and all pairs; plus each of the 137 event-handler attributes of the HTML standard on the elements (quick: every third element per handler; thorough: every element). Taints are applied to the parsed tree, so raw-case keys reach the library. " +
+			"every element node of its body x every taint {onclick, onerror, raw upper-case ONLOAD, raw ID/Class/STYLE, id, class, style, data-x, srcdoc, child <script>, child <style>, a child <noscript> whose raw text is markup with handlers and scripts, svg>xmp and math>style children whose text is markup, the same script/style children carrying an inline display style} (quick; singles also under a non-absolute page URL) + {onmouseover, raw ID, data-type, unknown, xmlns:og, on} and a page URL (thorough); all singles and all pairs; plus each of the 137 event-handler attributes of the HTML standard on the elements (quick: every third element per handler; thorough: every element). Taints are applied to the parsed tree, so raw-case keys reach the library. " +
 			"Oracle on result.Node: no script/style element; no on* attribute; no id/style; class only 'embed-placeholder' on the placeholder div; data-* only data-type/data-id there. Non-trivial = every tainted host element is represented in the output.",
 		Enumerate: c05Enumerate,
 		Check:     c05Check,
